@@ -399,6 +399,28 @@ ReduceSound(op, S) == LET R == Reduce(S, NeedsOf(op)) IN ToId(op, R, DeclOf(op, 
 (* Expand for the targets), leaves every pre-existing cell untouched, and a    *)
 (* newly created output variable holds the undefined value at a masked site.   *)
 
+(* The value at an active site must not depend on the presence of masked sites: *)
+(* it equals the value computed on the target Db reduced to the active sites     *)
+(* (same seed for the simulations: a masked site consumes nothing of the random  *)
+(* stream).  This is asserted for the turning bands wherever the reduced target   *)
+(* is expressible: always for point targets; for a grid only when the model is a  *)
+(* pure nugget effect (the nodes of a grid cannot be removed, and the structured  *)
+(* bands are sized on the corners of the WHOLE grid, whereas the nugget component  *)
+(* is drawn site by site in Db order: node k of the masked grid = k-th point of   *)
+(* the Db of its active nodes).  Other simulators are not in this catalogue.      *)
+
+\* catalogue of the target-writing operations: turning bands = conditional or not x points or grid x model
+\* (structures + nugget, structures only, nugget only)
+SimCond == <<"c", "n">>
+SimTarget == <<"p", "g">>
+SimModel == <<"sn", "s", "n">>
+TargetOps ==
+  << [op |-> "t_krig_u", reduce |-> TRUE], [op |-> "t_krig_m", reduce |-> TRUE],
+     [op |-> "t_migrate", reduce |-> TRUE], [op |-> "t_migrate_ball", reduce |-> TRUE] >> \o
+  Flatten([i \in 1..2 |-> Flatten([j \in 1..2 |-> [k \in 1..3 |->
+             [op |-> <<"t_sim", SimCond[i], SimTarget[j], SimModel[k]>>,
+              reduce |-> (SimTarget[j] = "p" \/ SimModel[k] = "n")]]])])
+
 TargetOn(ts) == ts \in {"none", "on"}
 TKeep(T) == IdxN(Len(T), LAMBDA t : TargetOn(T[t]))
 TargetExpect(T) == [t \in DOMAIN T |-> IF TargetOn(T[t]) THEN "value" ELSE "undefined"]
